@@ -47,10 +47,17 @@ type anchorGlobal struct {
 	Type string `json:"type"`
 }
 
+type anchorConst struct {
+	Name string `json:"name"`
+	Type string `json:"type"`
+	Val  string `json:"val"`
+}
+
 type anchorPkg struct {
 	Funcs   []anchorFunc   `json:"funcs"`
 	Types   []anchorType   `json:"types"`
 	Globals []anchorGlobal `json:"globals"`
+	Consts  []anchorConst  `json:"consts"`
 }
 
 var (
@@ -58,6 +65,7 @@ var (
 	aliasField  = map[*types.Var]string{}
 	aliasGlobal = map[*ssa.Global]string{}
 	aliasType   = map[string]string{} // "pkg.New" -> "pkg.Old" (short package paths)
+	aliasConst  = map[string]types.Object{} // "<package path>.<reference name>" -> the constant as it is spelled now
 	aliasNotes  []string
 )
 
@@ -210,6 +218,10 @@ func describePkg(p *ssa.Package) anchorPkg {
 			addFunc(m)
 		case *ssa.Global:
 			ap.Globals = append(ap.Globals, anchorGlobal{m.Name(), typeStr(deref(m.Type()))})
+		case *ssa.NamedConst:
+			if m.Value != nil && m.Value.Value != nil {
+				ap.Consts = append(ap.Consts, anchorConst{m.Name(), typeStr(m.Type()), m.Value.Value.ExactString()})
+			}
 		case *ssa.Type:
 			at := anchorType{Name: m.Name()}
 			switch u := m.Type().Underlying().(type) {
@@ -450,6 +462,48 @@ func resolveAliases(c *Ctx) {
 			}
 		}
 	}
+	// constants: an unexported constant that is missing is the one unexported constant of the same type and
+	// value that the reference does not know
+	for _, pk := range pkgs {
+		sp := c.SSA[strings.TrimSuffix(modPath+"/"+pk, "/")]
+		if sp == nil {
+			continue
+		}
+		cur := map[string]*ssa.NamedConst{}
+		for n, m := range sp.Members {
+			if k, ok := m.(*ssa.NamedConst); ok && k.Value != nil && k.Value.Value != nil {
+				cur[n] = k
+			}
+		}
+		refC := map[string]bool{}
+		for _, k := range ref[pk].Consts {
+			refC[k.Name] = true
+		}
+		missing := map[string][]string{}
+		for _, k := range ref[pk].Consts {
+			if _, ok := cur[k.Name]; !ok && !token.IsExported(k.Name) {
+				missing[k.Type+"="+k.Val] = append(missing[k.Type+"="+k.Val], k.Name)
+			}
+		}
+		unknown := map[string][]*ssa.NamedConst{}
+		var cn []string
+		for n := range cur {
+			cn = append(cn, n)
+		}
+		sort.Strings(cn)
+		for _, n := range cn {
+			if !refC[n] && !token.IsExported(n) {
+				key := typeStr(cur[n].Type()) + "=" + cur[n].Value.Value.ExactString()
+				unknown[key] = append(unknown[key], cur[n])
+			}
+		}
+		for key, names := range missing {
+			if len(names) == 1 && len(unknown[key]) == 1 {
+				aliasConst[sp.Pkg.Path()+"."+names[0]] = unknown[key][0].Object()
+				note("constant %s.%s is the reference's %s", pk, unknown[key][0].Name(), names[0])
+			}
+		}
+	}
 	// pass 3: functions and methods
 	for _, pk := range pkgs {
 		sp := c.SSA[strings.TrimSuffix(modPath+"/"+pk, "/")]
@@ -515,4 +569,19 @@ func resolveAliases(c *Ctx) {
 		}
 	}
 	sort.Strings(aliasNotes)
+}
+
+// scopeLookup finds a package-level object by its reference name (a renamed unexported constant is found under
+// its present spelling).
+func scopeLookup(pkg *types.Package, name string) types.Object {
+	if pkg == nil {
+		return nil
+	}
+	if o := pkg.Scope().Lookup(name); o != nil {
+		return o
+	}
+	if o, ok := aliasConst[pkg.Path()+"."+name]; ok {
+		return o
+	}
+	return nil
 }
